@@ -115,6 +115,13 @@ impl Spec {
     pub fn fingerprint(&self) -> u64 {
         fnv_of(self)
     }
+    /// hash of the statement that does not depend on the order in which assertions are listed
+    pub fn statement_fingerprint(&self) -> u64 {
+        let mut c = self.clone();
+        c.assertions.sort_by_key(|a| (a.column, a.first, a.stride));
+        c.aux_assertions.sort_by_key(|a| (a.column, a.first, a.stride));
+        fnv_of(&c)
+    }
     pub fn describe(&self) -> Value {
         json!({
             "field": self.field, "main_width": self.main_width, "aux_width": self.aux.len(), "aux_rands": self.num_rands,
